@@ -1200,6 +1200,15 @@ func ruleCursorDirection(c *Ctx, cts []cursorType, rule, paramRule string) {
 							return true
 						}
 					}
+					// the constructor looked up in a table keyed by the direction
+					if lk, isLk := x.Call.Value.(*ssa.Lookup); isLk && lk.Index == ssa.Value(prm) {
+						return true
+					}
+					if ex, isEx := x.Call.Value.(*ssa.Extract); isEx {
+						if lk, isLk := ex.Tuple.(*ssa.Lookup); isLk && lk.Index == ssa.Value(prm) {
+							return true
+						}
+					}
 					// the empty cursor has no direction
 					if cal, _ := calleeOf(&x.Call); cal != nil && strings.Contains(cal.Name(), "EmptyCursor") {
 						return true
